@@ -1,5 +1,6 @@
 use std::ops::Range;
 
+use pretty::DocAllocator;
 use typst_syntax::{
     ast::{Expr, Markup, Pattern},
     is_id_continue, LinkedNode, Source, Span, SyntaxKind,
@@ -62,10 +63,12 @@ impl Typstyle {
         } else {
             utils::count_spaces_after_last_newline(source.text(), node.range().start)
         };
-        let mut res = doc
-            .nest(indent as isize)
+        // Lay the node out from the column where it starts, so that what is aligned to a column
+        // (the body of a list item that starts with another item) lands where it will be spliced.
+        let mut res = (doc.0.text(" ".repeat(indent)) + doc.nest(indent as isize))
             .pretty(self.config.max_width)
-            .to_string();
+            .to_string()
+            .split_off(indent);
         // The node may touch a keyword (`if(x) => y`, `(a)in b`). When the formatted text
         // starts or ends with a word as well, keep the two apart.
         let node_range = node.range();
